@@ -81,25 +81,44 @@ inductive Insn where
   | unknown (k : UInt8)
   deriving Inhabited
 
-/-- Result of a reader: `io.EOF`, `io.ErrUnexpectedEOF` or success. -/
-abbrev PR := Except DErr
+/-- A reader: consumes a prefix of the input and returns a value, or fails
+    (`io.EOF`, `io.ErrUnexpectedEOF`, or another error). -/
+abbrev Rd (α : Type) := Bytes → Except DErr (α × Bytes)
+
+namespace Rd
+/-- Consume nothing. -/
+def pure (a : α) : Rd α := fun inp => .ok (a, inp)
+/-- Fail without consuming. -/
+def fail (e : DErr) : Rd α := fun _ => .error e
+/-- Sequencing: the second reader continues where the first stopped. -/
+def bind (r : Rd α) (s : α → Rd β) : Rd β := fun inp =>
+  match r inp with
+  | .ok (a, rest) => s a rest
+  | .error e => .error e
+/-- Interpret what was read; interpretation may fail but consumes nothing. -/
+def mapE (r : Rd α) (f : α → Except DErr β) : Rd β :=
+  r.bind fun a => match f a with
+    | .ok b => pure b
+    | .error e => fail e
+def map (r : Rd α) (f : α → β) : Rd β := r.bind fun a => pure (f a)
+end Rd
 
 /-- `bufio.Reader.ReadByte`. -/
-def readByte : Bytes → PR (UInt8 × Bytes)
+def readByte : Rd UInt8
   | [] => .error .eof
   | b :: r => .ok (b, r)
 
 /-- `io.ReadFull(d.r, b[:n])`. -/
-def readFull (n : Nat) (inp : Bytes) : PR (Bytes × Bytes) :=
+def readFull (n : Nat) : Rd Bytes := fun inp =>
   if n ≤ inp.length then .ok (inp.take n, inp.drop n)
   else if inp.isEmpty then .error .eof else .error .unexpectedEOF
 
 /-- `io.CopyN(&d.buf, d.r, n)` and the byte-at-a-time loops: short input is `io.EOF`. -/
-def copyN (n : Nat) (inp : Bytes) : PR (Bytes × Bytes) :=
+def copyN (n : Nat) : Rd Bytes := fun inp =>
   if n ≤ inp.length then .ok (inp.take n, inp.drop n) else .error .eof
 
 /-- `readLine`: through the next LF (not included); no LF before the end is `io.EOF`. -/
-def readLine (inp : Bytes) : PR (Bytes × Bytes) :=
+def readLine : Rd Bytes := fun inp =>
   match splitLine inp with
   | some (l, r) => .ok (l, r)
   | none => .error .eof
@@ -138,7 +157,7 @@ def parseStringArg (line : Bytes) : Except DErr Bytes :=
       | .error .panic => .error (.panic "pydecode: string-escape: non-byte escaped rune")
   | [] => .error .unexpectedEOF
 
-/-- Argument of INT. `nbig` is not needed here: allocation ids are given by `exec`. -/
+/-- Argument of INT (`00`/`01` are the booleans). Allocation ids of longs are given by `exec`. -/
 def parseIntArg (line : Bytes) : Except DErr Insn :=
   if line = [48, 48] then .ok (.pushBool false)
   else if line = [48, 49] then .ok (.pushBool true)
@@ -159,129 +178,83 @@ def parseFloatArg (line : Bytes) : Except DErr Insn :=
   | .syntax => .error .other
   | .unmodelled => .error .unmodelled
 
-/-- Read a length-prefixed payload: `lenBytes` little-endian length, then the data. -/
-def readCounted (lenBytes : Nat) (inp : Bytes) : PR (Bytes × Bytes) := do
-  let (lb, r) ← readFull lenBytes inp
-  let l := leNat lb
-  if l > 2 ^ 63 - 1 then .error .other      -- "size([]data) > maxint64"
-  else copyN l r
+def parseUnicodeArg (line : Bytes) : Except DErr Insn :=
+  match pydecodeRawUnicodeEscape line with
+  | .ok s => .ok (.pushStr s)
+  | .error _ => .error .other
 
-def readCounted1 (inp : Bytes) : PR (Bytes × Bytes) := do
-  let (b, r) ← readByte inp
-  copyN b.toNat r
+/-- A length-prefixed payload: `lenBytes` little-endian length, then the data. -/
+def readCounted (lenBytes : Nat) : Rd Bytes :=
+  (readFull lenBytes).bind fun lb =>
+    if leNat lb > 2 ^ 63 - 1 then Rd.fail .other      -- "size([]data) > maxint64"
+    else copyN (leNat lb)
+
+def readCounted1 : Rd Bytes := readByte.bind fun b => copyN b.toNat
 
 /-- The opcode byte `key` has been read; read its argument. -/
-def parseArg (key : UInt8) (inp : Bytes) : PR (Insn × Bytes) :=
-  let line (f : Bytes → Except DErr Insn) : PR (Insn × Bytes) := do
-    let (l, r) ← readLine inp
-    let i ← f l
-    pure (i, r)
-  if key = 40 then .ok (.mark, inp)                 -- (
-  else if key = 46 then .ok (.stop, inp)            -- .
-  else if key = 48 then .ok (.pop, inp)             -- 0
-  else if key = 49 then .ok (.popMark, inp)         -- 1
-  else if key = 50 then .ok (.dup, inp)             -- 2
-  else if key = 70 then line parseFloatArg          -- F
-  else if key = 73 then line parseIntArg            -- I
-  else if key = 74 then do                          -- J
-    let (b, r) ← readFull 4 inp
-    pure (.pushInt (toSigned 32 (leNat b)), r)
-  else if key = 75 then do                          -- K
-    let (b, r) ← readByte inp
-    pure (.pushInt b.toNat, r)
-  else if key = 76 then line parseLongArg           -- L
-  else if key = 77 then do                          -- M
-    let (b, r) ← readFull 2 inp
-    pure (.pushInt (leNat b), r)
-  else if key = 78 then .ok (.pushNone, inp)        -- N
-  else if key = 80 then line fun l => .ok (.persid l)   -- P
-  else if key = 81 then .ok (.binpersid, inp)       -- Q
-  else if key = 82 then .ok (.reduce, inp)          -- R
-  else if key = 83 then line fun l => .pushByteString <$> parseStringArg l   -- S
-  else if key = 84 then do                          -- T
-    let (s, r) ← readCounted 4 inp
-    pure (.pushByteString s, r)
-  else if key = 85 then do                          -- U
-    let (s, r) ← readCounted1 inp
-    pure (.pushByteString s, r)
-  else if key = 86 then line fun l =>               -- V
-    match pydecodeRawUnicodeEscape l with
-    | .ok s => .ok (.pushStr s)
-    | .error _ => .error .other
-  else if key = 88 then do                          -- X
-    let (s, r) ← readCounted 4 inp
-    pure (.pushStr s, r)
-  else if key = 97 then .ok (.append, inp)          -- a
-  else if key = 98 then .ok (.build, inp)           -- b
-  else if key = 99 then do                          -- c
-    let (m, r) ← readLine inp
-    let (n, r) ← readLine r
-    pure (.global m n, r)
-  else if key = 100 then .ok (.dict, inp)           -- d
-  else if key = 125 then .ok (.emptyDict, inp)      -- }
-  else if key = 101 then .ok (.appends, inp)        -- e
-  else if key = 103 then line fun l => .ok (.get l) -- g
-  else if key = 104 then do                         -- h
-    let (b, r) ← readByte inp
-    pure (.get (memoKey b.toNat), r)
-  else if key = 105 then .ok (.inst, inp)           -- i
-  else if key = 0x8a then do                        -- LONG1
-    let (s, r) ← readCounted1 inp
-    pure (.pushBig (decodeLong s), r)
-  else if key = 0x89 then .ok (.pushBool false, inp)
-  else if key = 0x88 then .ok (.pushBool true, inp)
-  else if key = 106 then do                         -- j
-    let (b, r) ← readFull 4 inp
-    pure (.get (memoKey (leNat b)), r)
-  else if key = 108 then .ok (.list, inp)           -- l
-  else if key = 93 then .ok (.emptyList, inp)       -- ]
-  else if key = 111 then .ok (.obj, inp)            -- o
-  else if key = 112 then line fun l => .ok (.put l) -- p
-  else if key = 113 then do                         -- q
-    let (b, r) ← readByte inp
-    pure (.put (memoKey b.toNat), r)
-  else if key = 114 then do                         -- r
-    let (b, r) ← readFull 4 inp
-    pure (.put (memoKey (leNat b)), r)
-  else if key = 115 then .ok (.setitem, inp)        -- s
-  else if key = 116 then .ok (.tuple, inp)          -- t
-  else if key = 0x85 then .ok (.tupleN 1, inp)
-  else if key = 0x86 then .ok (.tupleN 2, inp)
-  else if key = 0x87 then .ok (.tupleN 3, inp)
-  else if key = 41 then .ok (.emptyTuple, inp)      -- )
-  else if key = 117 then .ok (.setitems, inp)       -- u
-  else if key = 71 then do                          -- G
-    let (b, r) ← readFull 8 inp
-    pure (.pushFloat (UInt64.ofNat (beNat b)), r)
-  else if key = 66 then do                          -- B
-    let (s, r) ← readCounted 4 inp
-    pure (.pushBytes s, r)
-  else if key = 67 then do                          -- C
-    let (s, r) ← readCounted1 inp
-    pure (.pushBytes s, r)
-  else if key = 0x95 then do                        -- FRAME
-    let (_, r) ← readFull 8 inp
-    pure (.frame, r)
-  else if key = 0x8c then do                        -- SHORT_BINUNICODE
-    let (s, r) ← readCounted1 inp
-    pure (.pushStr s, r)
-  else if key = 0x93 then .ok (.stackGlobal, inp)
-  else if key = 0x94 then .ok (.memoize, inp)
-  else if key = 0x96 then do                        -- BYTEARRAY8
-    let (s, r) ← readCounted 8 inp
-    pure (.pushBytearray s, r)
-  else if key = 0x97 then .ok (.nextBuffer, inp)
-  else if key = 0x98 then .ok (.readonlyBuffer, inp)
-  else if key = 0x80 then do                        -- PROTO
-    let (v, r) ← readByte inp
-    pure (.proto v.toNat, r)
-  else .ok (.unknown key, inp)
+def parseArg (key : UInt8) : Rd Insn :=
+  if key = 40 then Rd.pure .mark                    -- (
+  else if key = 46 then Rd.pure .stop               -- .
+  else if key = 48 then Rd.pure .pop                -- 0
+  else if key = 49 then Rd.pure .popMark            -- 1
+  else if key = 50 then Rd.pure .dup                -- 2
+  else if key = 70 then readLine.mapE parseFloatArg -- F
+  else if key = 73 then readLine.mapE parseIntArg   -- I
+  else if key = 74 then (readFull 4).map fun b => .pushInt (toSigned 32 (leNat b))   -- J
+  else if key = 75 then readByte.map fun b => .pushInt b.toNat                       -- K
+  else if key = 76 then readLine.mapE parseLongArg  -- L
+  else if key = 77 then (readFull 2).map fun b => .pushInt (leNat b)                 -- M
+  else if key = 78 then Rd.pure .pushNone           -- N
+  else if key = 80 then readLine.map .persid        -- P
+  else if key = 81 then Rd.pure .binpersid          -- Q
+  else if key = 82 then Rd.pure .reduce             -- R
+  else if key = 83 then readLine.mapE fun l => .pushByteString <$> parseStringArg l  -- S
+  else if key = 84 then (readCounted 4).map .pushByteString                          -- T
+  else if key = 85 then readCounted1.map .pushByteString                             -- U
+  else if key = 86 then readLine.mapE parseUnicodeArg                                -- V
+  else if key = 88 then (readCounted 4).map .pushStr                                 -- X
+  else if key = 97 then Rd.pure .append             -- a
+  else if key = 98 then Rd.pure .build              -- b
+  else if key = 99 then readLine.bind fun m => readLine.map fun n => .global m n     -- c
+  else if key = 100 then Rd.pure .dict              -- d
+  else if key = 125 then Rd.pure .emptyDict         -- }
+  else if key = 101 then Rd.pure .appends           -- e
+  else if key = 103 then readLine.map .get          -- g
+  else if key = 104 then readByte.map fun b => .get (memoKey b.toNat)                -- h
+  else if key = 105 then Rd.pure .inst              -- i
+  else if key = 0x8a then readCounted1.map fun s => .pushBig (decodeLong s)          -- LONG1
+  else if key = 0x89 then Rd.pure (.pushBool false)
+  else if key = 0x88 then Rd.pure (.pushBool true)
+  else if key = 106 then (readFull 4).map fun b => .get (memoKey (leNat b))          -- j
+  else if key = 108 then Rd.pure .list              -- l
+  else if key = 93 then Rd.pure .emptyList          -- ]
+  else if key = 111 then Rd.pure .obj               -- o
+  else if key = 112 then readLine.map .put          -- p
+  else if key = 113 then readByte.map fun b => .put (memoKey b.toNat)                -- q
+  else if key = 114 then (readFull 4).map fun b => .put (memoKey (leNat b))          -- r
+  else if key = 115 then Rd.pure .setitem           -- s
+  else if key = 116 then Rd.pure .tuple             -- t
+  else if key = 0x85 then Rd.pure (.tupleN 1)
+  else if key = 0x86 then Rd.pure (.tupleN 2)
+  else if key = 0x87 then Rd.pure (.tupleN 3)
+  else if key = 41 then Rd.pure .emptyTuple         -- )
+  else if key = 117 then Rd.pure .setitems          -- u
+  else if key = 71 then (readFull 8).map fun b => .pushFloat (UInt64.ofNat (beNat b))  -- G
+  else if key = 66 then (readCounted 4).map .pushBytes                               -- B
+  else if key = 67 then readCounted1.map .pushBytes                                  -- C
+  else if key = 0x95 then (readFull 8).map fun _ => .frame                           -- FRAME
+  else if key = 0x8c then readCounted1.map .pushStr                                  -- SHORT_BINUNICODE
+  else if key = 0x93 then Rd.pure .stackGlobal
+  else if key = 0x94 then Rd.pure .memoize
+  else if key = 0x96 then (readCounted 8).map .pushBytearray                         -- BYTEARRAY8
+  else if key = 0x97 then Rd.pure .nextBuffer
+  else if key = 0x98 then Rd.pure .readonlyBuffer
+  else if key = 0x80 then readByte.map fun v => .proto v.toNat                       -- PROTO
+  else Rd.pure (.unknown key)
 
 /-- One instruction from the input: opcode byte, then argument. The caller maps the
     error of `readByte` on the opcode itself (clean EOF vs. mid-pickle). -/
-def parseInsn (inp : Bytes) : PR (Insn × Bytes) := do
-  let (key, r) ← readByte inp
-  parseArg key r
+def parseInsn : Rd Insn := readByte.bind parseArg
 
 /-- Memory the decoder requests *before* it knows whether the payload is present
     (`d.buf.Grow(min(l, maxgrow))`), as a function of the input at an opcode boundary. -/
